@@ -170,7 +170,7 @@ def run_real(h):
                     mops.append('N')
             elif k == 'T':
                 # the library sets a traversal parent only on an element it has just created (create_element)
-                if child.parent is None and child.traversal_parent is None:
+                if child.parent is None and child.traversal_parent is None and valid == 1 and child is not p:     # (create_element only creates children the structure allows)
                     mops.append('T.%d.%d.%d' % (op[1], op[2], valid))
                     child.traversal_parent = p
                 else:
